@@ -142,7 +142,7 @@ Section NoFault.
   Lemma hash_run_nofault old rep tl : run_ok ((old, rep) :: tl) ->
     hash_run hf ((old, rep) :: tl) = map (fun x => (newh rep old, snd x)) ((old, rep) :: tl).
   Proof.
-    intros [Hin Hh]. unfold hash_run. rewrite Hhf. apply map_ext_in. intros x Hx. f_equal.
+    intros [Hin Hh]. rewrite (hash_run_head hf old rep tl _ _ (Hhf rep old)). apply map_ext_in. intros x Hx. f_equal.
     specialize (Hh x Hx). unfold item_same_id in Hh. cbn [snd] in Hh. apply same_id_spec in Hh.
     destruct (Hids rep (snd x)) as [_ El]; auto.
     - apply (Hin (old, rep)). left; auto.
@@ -360,12 +360,14 @@ Section Complete.
       exists g0, In g0 gs /\ pre g0 = true /\ In f (gfiles g0) /\ h = newh f (ghash g0).
     Proof.
       intros Hin. apply (in_hashed _ _ _ _ _ _ Hnd) in Hin.
-      destruct Hin as (old & rep & [h0 f0] & len & Hrep & Hx & Hi & _ & Hh & ->). cbn [snd] in *.
+      destruct Hin as (old & hd & oldr & rep & [h0 f0] & len & Hhd & Hrep & Hx & Hih & _ & Hi & _ & Hh & ->). cbn [snd] in *.
       rewrite Hhf in Hh. inversion Hh; subst h len. clear Hh.
       apply in_items_of in Hrep. destruct Hrep as (g1 & Hg1 & -> & Hrep).
+      apply in_items_of in Hhd. destruct Hhd as (gh & Hgh & -> & Hhd).
       apply in_items_of in Hx. destruct Hx as (g0 & Hg0 & -> & Hf0).
-      apply filter_In in Hg1, Hg0. destruct Hg1 as [Hg1 _]. destruct Hg0 as [Hg0 Hp0].
+      apply filter_In in Hg1, Hg0, Hgh. destruct Hg1 as [Hg1 _]. destruct Hg0 as [Hg0 Hp0]. destruct Hgh as [Hgh _].
       destruct (rep_same_group g0 f0 g1 rep) as (-> & Ed & Hokr & Hokf); auto.
+      destruct (rep_same_group g0 f0 gh hd) as (-> & _ & _ & _); auto; [congruence|].
       destruct (Hids rep f0 (proj1 Hokr) (proj1 Hokf) Hi) as [_ El].
       rewrite El, set_len_same. exists g0. repeat split; auto.
     Qed.
